@@ -74,6 +74,44 @@ theorem c13_normal_has_address (name : Name) (pref : Option Nat) (bypass : Bool)
     | timer => exact ih _ (c13_inv_claimAsync c h)
     | claim sa d => exact ih _ (c13_inv_addressClaim c sa d h)
 
+/-- NEVER OPERATIONAL AT THE NULL ADDRESS (after the repair of D28): a CA whose preferred address is a real address
+    (≤ 253) never announces, waits at, or holds an address above 253 — whatever it loses, however often -/
+def InvRange (c : Ca) : Prop :=
+  (∀ p, c.preferred = some p → p ≤ 253) ∧ ((c.state = WAIT_VETO ∨ c.state = NORMAL) → c.announced ≤ 253)
+
+theorem c13_range_new (name : Name) (pref : Option Nat) (bypass : Bool) (hp : ∀ p, pref = some p → p ≤ 253) :
+    InvRange (Ca.new name pref bypass) := by
+  have := states_distinct
+  unfold InvRange Ca.new
+  cases bypass <;> cases pref <;> simp_all
+
+theorem c13_range_claimAsync (c : Ca) (h : InvRange c) : InvRange (claimAsync c).1 := by
+  have := states_distinct
+  unfold InvRange claimAsync at *
+  obtain ⟨h1, h2⟩ := h
+  crack
+
+theorem c13_range_addressClaim (c : Ca) (sa : Nat) (data : List Nat) (h : InvRange c) : InvRange (processAddressClaim c sa data).1 := by
+  have := states_distinct
+  unfold InvRange processAddressClaim at *
+  obtain ⟨h1, h2⟩ := h
+  crack <;> omega
+
+theorem c13_never_at_null (name : Name) (pref : Option Nat) (bypass : Bool) (hp : ∀ p, pref = some p → p ≤ 253) (hist : List Ev) :
+    let c := run (Ca.new name pref bypass) hist
+    c.state = NORMAL → ∃ a, c.addr = some a ∧ a ≤ 253 := by
+  have key : ∀ c, Inv c → InvRange c → Inv (run c hist) ∧ InvRange (run c hist) := by
+    induction hist with
+    | nil => intro c h1 h2; exact ⟨h1, h2⟩
+    | cons e es ih =>
+      intro c h1 h2
+      cases e with
+      | timer => exact ih _ (c13_inv_claimAsync c h1) (c13_range_claimAsync c h2)
+      | claim sa d => exact ih _ (c13_inv_addressClaim c sa d h1) (c13_range_addressClaim c sa d h2)
+  obtain ⟨k1, k2⟩ := key _ (c13_inv_new name pref bypass) (c13_range_new name pref bypass hp)
+  intro c hn
+  exact ⟨_, k1 hn, k2.2 (Or.inr hn)⟩
+
 /-- and a CA without an address reports the null address -/
 theorem c13_no_address_is_null (c : Ca) (h : c.state ≠ NORMAL) : deviceAddress c = some 254 ∧ ∀ d, d ≠ 255 → messageAcceptable c d = false := by
   have h' : (c.state != NORMAL) = true := by simpa using h
